@@ -315,4 +315,50 @@ def hasOwnDfltP : List (String × S) → Bool
   | (_, s) :: ps => s.kw.dflt.isSome || s.hasOwnDflt || hasOwnDfltP ps
 end
 
+/-! ### defaults that cannot change a verdict
+
+Injection changes what a sub-schema SEES: a `not` child (on its private copy) is evaluated on the value with the child's own
+defaults written in, so `not: {properties: {a: {default: 1}}, required: [a]}` rejects `{}` under injection and accepts it
+without. The class below is where that cannot happen: in the whole tree no keyword can notice a written member (no enum,
+uniqueItems, min/maxProperties, discriminator; `required` does not name a defaulted property) and a defaulted property's own
+schema accepts every non-null value. For a schema whose defaults all live below `not`s of that class
+(`!hasOwnDflt && notsNeutral`) the verdict under injection must be that of plain validation, `Sat` of the value handed in —
+the reading of C01 that the differential run checks (tied by the run; not a theorem yet). -/
+
+/-- accepts every non-null value: no keyword, no sub-schema -/
+def S.acceptsAll (s : S) : Bool := s.kw.bare && !s.hasSub && !s.kw.hasDisc && s.kw.addHas != some false
+
+mutual
+def S.dfltNeutral : S → Bool
+  | .mk kw a b c n i p ad =>
+    kw.enum.isEmpty && !kw.uniqueItems && kw.minProps == 0 && kw.maxProps.isNone && !kw.hasDisc &&
+    dfltNeutralP kw.required p && dfltNeutralL a && dfltNeutralL b && dfltNeutralL c &&
+    dfltNeutralO n && dfltNeutralO i && dfltNeutralO ad
+def dfltNeutralL : List S → Bool
+  | [] => true
+  | s :: ss => s.dfltNeutral && dfltNeutralL ss
+def dfltNeutralO : Option S → Bool
+  | none => true
+  | some s => s.dfltNeutral
+def dfltNeutralP (req : List String) : List (String × S) → Bool
+  | [] => true
+  | (k, s) :: ps => (if s.kw.dflt.isSome then s.acceptsAll && !req.contains k else s.dfltNeutral) && dfltNeutralP req ps
+end
+
+mutual
+/-- every `not` child of the tree is in the neutral class -/
+def S.notsNeutral : S → Bool
+  | .mk _ a b c n i p ad =>
+    dfltNeutralO n && notsNeutralL a && notsNeutralL b && notsNeutralL c && notsNeutralO i && notsNeutralP p && notsNeutralO ad
+def notsNeutralL : List S → Bool
+  | [] => true
+  | s :: ss => s.notsNeutral && notsNeutralL ss
+def notsNeutralO : Option S → Bool
+  | none => true
+  | some s => s.notsNeutral
+def notsNeutralP : List (String × S) → Bool
+  | [] => true
+  | (_, s) :: ps => s.notsNeutral && notsNeutralP ps
+end
+
 end KinModel.Schema
